@@ -1,5 +1,1366 @@
-//! (stub; being written)
+//! C12 — argument encoding and decoding are inverse for every instruction signature.
+//!
+//! Bounded exhaustive enumeration of (signature, argument list) pairs.  The signatures are declared
+//! by a *user mapfile* written by the harness (opcodes 2000.. in TH12 ANM, 100.. in TH08 MSG and the
+//! TH06 ECL timeline), the calls are compiled by the real truth code in process, and the emitted
+//! argument blob + parameter mask of every instruction is compared with the reference model M7
+//! (written here from the documented layout; it never calls into truth).  Then the binary is
+//! decompiled with the same mapfile, the printed arguments are compared by VALUE with the source
+//! arguments, and the decompiled text is recompiled and must give identical bytes.
+//!
+//! "Diagnosed, not silently changed": a value that needs more bits than its parameter has, a
+//! register in an immediate-only position, a register whose mask bit cannot be stored, a string
+//! that cannot be encoded or does not fit must produce a rendered warning or error on its line.
 #![allow(dead_code)]
-use crate::common::Report;
-pub fn run(tier: &str) -> Report { Report::new("C12", tier, "model_checking") }
-pub fn replay(_detail: &serde_json::Value) -> i32 { 2 }
+
+use std::collections::{BTreeMap, BTreeSet};
+use serde_json::{json, Value};
+use truth::Game;
+
+use crate::common::*;
+use crate::drive::{self, CompileOpts, DecompOpts, Kind, Tool};
+
+// =============================================================================================
+// Signature language (harness side)
+
+#[derive(Clone, Debug, PartialEq, Eq, PartialOrd, Ord, Hash)]
+pub enum StrSize { Block(u32), Fixed(u32, bool), Pascal(u32) }
+
+#[derive(Clone, Debug, PartialEq, Eq, PartialOrd, Ord, Hash)]
+pub enum P {
+    Int { letter: char, imm: bool, hex: bool, en: Option<String>, arg0: bool },
+    Float { imm: bool },
+    Off, Time, Pad4, Pad1,
+    Str { letter: char, size: StrSize, mask: Option<[u8; 3]>, furibug: bool },
+}
+
+fn pint(letter: char) -> P { P::Int { letter, imm: false, hex: false, en: None, arg0: false } }
+fn pint_a(letter: char, imm: bool, hex: bool, en: Option<&str>) -> P { P::Int { letter, imm, hex, en: en.map(String::from), arg0: false } }
+fn pstr(letter: char, size: StrSize, mask: Option<[u8; 3]>, furibug: bool) -> P { P::Str { letter, size, mask, furibug } }
+const MASK77: [u8; 3] = [0x77, 7, 16];
+
+/// (width in bytes, displayed signed) of an integer letter — from the signature documentation.
+fn int_layout(letter: char) -> (u32, bool) {
+    match letter {
+        'S' | 'n' | 'N' | 'E' => (4, true),
+        'U' | 'C' => (4, false),
+        's' => (2, true), 'u' => (2, false),
+        'c' => (1, true), 'b' => (1, false),
+        _ => panic!("not an int letter {letter}"),
+    }
+}
+
+impl P {
+    pub fn text(&self) -> String {
+        match self {
+            P::Int { letter, imm, hex, en, arg0 } => {
+                let mut at = vec![];
+                if let Some(e) = en { at.push(format!("enum=\"{e}\"")); }
+                if *arg0 { at.push("arg0".to_string()); }
+                if *imm { at.push("imm".to_string()); }
+                if *hex { at.push("hex".to_string()); }
+                if at.is_empty() { letter.to_string() } else { format!("{}({})", letter, at.join(";")) }
+            },
+            P::Float { imm } => if *imm { "f(imm)".into() } else { "f".into() },
+            P::Off => "o".into(), P::Time => "t".into(), P::Pad4 => "_".into(), P::Pad1 => "-".into(),
+            P::Str { letter, size, mask, furibug } => {
+                let mut at = vec![];
+                match size {
+                    StrSize::Block(bs) | StrSize::Pascal(bs) => at.push(format!("bs={bs}")),
+                    StrSize::Fixed(len, nulless) => { at.push(format!("len={len}")); if *nulless { at.push("nulless".into()); } },
+                }
+                if let Some([m, v, a]) = mask { at.push(format!("mask={m},{v},{a}")); }
+                if *furibug { at.push("furibug".into()); }
+                format!("{}({})", letter, at.join(";"))
+            },
+        }
+    }
+    fn is_pad(&self) -> bool { matches!(self, P::Pad1 | P::Pad4) }
+    fn is_str(&self) -> bool { matches!(self, P::Str { .. }) }
+    /// documented: strings, o, t and `imm` parameters can never be registers
+    fn always_imm(&self) -> bool {
+        match self { P::Int { imm, .. } | P::Float { imm } => *imm, P::Off | P::Time | P::Str { .. } => true, P::Pad1 | P::Pad4 => true }
+    }
+    fn subdword(&self) -> bool { matches!(self, P::Int { letter, arg0: false, .. } if int_layout(*letter).0 < 4) }
+    fn nontrivial(&self) -> bool { self.is_pad() || self.is_str() || self.subdword() || matches!(self, P::Off | P::Time) }
+}
+
+pub fn sig_text(ps: &[P]) -> String { ps.iter().map(|p| p.text()).collect() }
+
+/// Parse a signature text produced by `sig_text` (used by replay only).
+pub fn parse_sig(text: &str) -> Option<Vec<P>> {
+    let cs: Vec<char> = text.chars().collect();
+    let mut i = 0;
+    let mut out = vec![];
+    while i < cs.len() {
+        let letter = cs[i]; i += 1;
+        let mut attrs: Vec<(String, Option<String>)> = vec![];
+        if i < cs.len() && cs[i] == '(' {
+            let j = (i..cs.len()).find(|&j| cs[j] == ')')?;
+            let inner: String = cs[i + 1..j].iter().collect();
+            for a in inner.split(';') {
+                let a = a.trim();
+                match a.split_once('=') { Some((k, v)) => attrs.push((k.trim().into(), Some(v.trim().into()))), None => attrs.push((a.into(), None)) }
+            }
+            i = j + 1;
+        }
+        let flag = |k: &str| attrs.iter().any(|(a, _)| a == k);
+        let val = |k: &str| attrs.iter().find(|(a, _)| a == k).and_then(|(_, v)| v.clone());
+        let p = match letter {
+            'S' | 's' | 'U' | 'u' | 'C' | 'c' | 'b' | 'n' | 'N' | 'E' => P::Int {
+                letter, imm: flag("imm"), hex: flag("hex"), arg0: flag("arg0"),
+                en: val("enum").map(|s| s.trim_matches('"').to_string()),
+            },
+            'f' => P::Float { imm: flag("imm") },
+            'o' => P::Off, 't' => P::Time, '_' => P::Pad4, '-' => P::Pad1,
+            'z' | 'm' | 'p' => {
+                let size = if let Some(l) = val("len") { StrSize::Fixed(l.parse().ok()?, flag("nulless")) }
+                    else { let bs: u32 = val("bs")?.parse().ok()?; if letter == 'p' { StrSize::Pascal(bs) } else { StrSize::Block(bs) } };
+                let mask = match val("mask") { None => None, Some(m) => { let v: Vec<u8> = m.split(',').filter_map(|x| x.trim().parse().ok()).collect(); if v.len() != 3 { return None; } Some([v[0], v[1], v[2]]) } };
+                P::Str { letter, size, mask, furibug: flag("furibug") }
+            },
+            _ => return None,
+        };
+        out.push(p);
+    }
+    Some(out)
+}
+
+#[derive(Clone, Copy, Debug, PartialEq, Eq, PartialOrd, Ord, Hash)]
+pub enum Host { Anm12, Msg08, Tl06 }
+
+impl Host {
+    fn name(self) -> &'static str { match self { Host::Anm12 => "anm12", Host::Msg08 => "msg08", Host::Tl06 => "tl06" } }
+    fn from_name(s: &str) -> Option<Host> { match s { "anm12" => Some(Host::Anm12), "msg08" => Some(Host::Msg08), "tl06" => Some(Host::Tl06), _ => None } }
+    fn tool(self) -> Tool {
+        match self {
+            Host::Anm12 => Tool::new(Kind::Anm, Game::Th12),
+            Host::Msg08 => Tool::new(Kind::Msg, Game::Th08),
+            Host::Tl06 => Tool::new(Kind::Ecl, Game::Th06),
+        }
+    }
+    fn has_regs(self) -> bool { self == Host::Anm12 }
+    fn has_labels(self) -> bool { self == Host::Anm12 }
+    fn opcode_base(self) -> u32 { match self { Host::Anm12 => 2000, _ => 100 } }
+    fn max_sigs(self) -> usize { match self { Host::Anm12 => 4000, Host::Msg08 => 27, Host::Tl06 => 4000 } }
+    fn header_size(self) -> u32 { match self { Host::Anm12 => 8, Host::Msg08 => 4, Host::Tl06 => 8 } }
+    fn mapfile_head(self) -> &'static str {
+        match self {
+            Host::Anm12 => "!anmmap\n!ins_signatures\n",
+            Host::Msg08 => "!msgmap\n!ins_signatures\n",
+            Host::Tl06 => "!eclmap\n!timeline_ins_signatures\n",
+        }
+    }
+    fn source_head(self) -> &'static str {
+        match self {
+            Host::Anm12 => ANM_HEAD,
+            Host::Msg08 => "meta {\n    table: {\n        0: {script: \"script0\"},\n    }\n}\nscript script0 {\n10:\n",
+            Host::Tl06 => "script timeline0 {\n10:\n",
+        }
+    }
+}
+
+const ANM_HEAD: &str = r#"entry {
+    path: "subdir/file.png",
+    has_data: false,
+    img_width: 512,
+    img_height: 512,
+    img_format: 3,
+    offset_x: 0,
+    offset_y: 0,
+    colorkey: 0,
+    memory_priority: 0,
+    low_res_scale: false,
+    sprites: {
+        sprite0: {id: 0, x: 0.0, y: 0.0, w: 512.0, h: 480.0},
+    },
+}
+script script0 {
+10:
+"#;
+const LABEL_TIME: i32 = 10;
+
+/// The validation rules a mapfile signature must obey (from the documentation of `ArgEncoding` /
+/// `StringArgSize` and the loader's documented restrictions).
+pub fn sig_validity(ps: &[P], host: Host) -> Result<(), &'static str> {
+    let o = ps.iter().filter(|p| **p == P::Off).count();
+    let t = ps.iter().filter(|p| **p == P::Time).count();
+    if o > 1 { return Err("multiple-o"); }
+    if t > 1 { return Err("multiple-t"); }
+    if t == 1 && o == 0 { return Err("t-without-o"); }
+    for (i, p) in ps.iter().enumerate() {
+        match p {
+            P::Int { letter, arg0: true, .. } => {
+                if i != 0 { return Err("arg0-not-first"); }
+                if int_layout(*letter).0 > 2 { return Err("arg0-dword"); }
+                if host != Host::Tl06 { return Err("arg0-outside-timeline"); }
+            },
+            P::Str { letter, size, mask, .. } => {
+                if let StrSize::Block(_) = size { if i + 1 != ps.len() { return Err("blockstring-not-last"); } }
+                if *letter == 'm' && mask.is_none() { return Err("m-without-mask"); }
+                if *letter == 'p' && matches!(size, StrSize::Fixed(..)) { return Err("p-with-len"); }
+                if let StrSize::Block(0) | StrSize::Pascal(0) = size { return Err("bs-zero"); }
+            },
+            _ => {},
+        }
+    }
+    Ok(())
+}
+
+// =============================================================================================
+// Argument values
+
+#[derive(Clone, Debug, PartialEq)]
+pub enum A { Int(i32), Flt(u32), Reg(i32), FReg(i32), Str(String), LabOff, LabTime }
+
+impl A {
+    fn to_json(&self) -> Value {
+        match self {
+            A::Int(v) => json!({"i": v}), A::Flt(b) => json!({"f": b}), A::Reg(n) => json!({"r": n}), A::FReg(n) => json!({"fr": n}),
+            A::Str(s) => json!({"s": s}), A::LabOff => json!("lo"), A::LabTime => json!("lt"),
+        }
+    }
+    fn from_json(v: &Value) -> Option<A> {
+        if v == "lo" { return Some(A::LabOff); }
+        if v == "lt" { return Some(A::LabTime); }
+        if let Some(x) = v.get("i") { return Some(A::Int(x.as_i64()? as i32)); }
+        if let Some(x) = v.get("f") { return Some(A::Flt(x.as_u64()? as u32)); }
+        if let Some(x) = v.get("r") { return Some(A::Reg(x.as_i64()? as i32)); }
+        if let Some(x) = v.get("fr") { return Some(A::FReg(x.as_i64()? as i32)); }
+        if let Some(x) = v.get("s") { return Some(A::Str(x.as_str()?.to_string())); }
+        None
+    }
+    fn is_reg(&self) -> bool { matches!(self, A::Reg(_) | A::FReg(_)) }
+    fn src(&self, label: &str) -> String {
+        match self {
+            A::Int(v) => format!("{}", *v as i64),
+            A::Flt(b) => f32_src(*b),
+            A::Reg(n) => format!("$REG[{n}]"),
+            A::FReg(n) => format!("%REG[{n}]"),
+            A::Str(s) => quote(s),
+            A::LabOff => format!("offsetof({label})"),
+            A::LabTime => format!("timeof({label})"),
+        }
+    }
+}
+
+fn f32_src(bits: u32) -> String {
+    let f = f32::from_bits(bits);
+    if f.is_infinite() { return if f > 0.0 { "INF".into() } else { "-INF".into() }; }
+    let mut s = format!("{}", f.abs());
+    if !s.contains('.') { s.push_str(".0"); }
+    if f.is_sign_negative() { format!("-{s}") } else { s }
+}
+
+fn quote(s: &str) -> String {
+    let mut o = String::from("\"");
+    for c in s.chars() {
+        match c { '"' => o.push_str("\\\""), '\\' => o.push_str("\\\\"), '\n' => o.push_str("\\n"), '\r' => o.push_str("\\r"), '\0' => o.push_str("\\0"), c => o.push(c) }
+    }
+    o.push('"');
+    o
+}
+
+fn unquote(t: &str) -> Option<String> {
+    let t = t.strip_prefix('"')?.strip_suffix('"')?;
+    let mut o = String::new();
+    let mut it = t.chars();
+    while let Some(c) = it.next() {
+        if c == '\\' { match it.next()? { 'n' => o.push('\n'), 'r' => o.push('\r'), '0' => o.push('\0'), '"' => o.push('"'), '\\' => o.push('\\'), _ => return None } }
+        else { o.push(c); }
+    }
+    Some(o)
+}
+
+// =============================================================================================
+// M7: the reference encoder / expected decode
+
+#[derive(Clone, Debug, PartialEq)]
+pub enum Need {
+    /// the value needs more bits than the parameter has
+    Narrow { letter: char, what: String },
+    /// register in a parameter documented as immediate-only: documented to WARN and store the id
+    ImmReg,
+    /// register whose mask bit does not exist (parameter index >= 16)
+    MaskOverflow,
+}
+
+#[derive(Clone, Debug, PartialEq)]
+pub enum Pr { Int(i32, Option<String>), Reg(i32), Flt(u32), FReg(i32), Str(String), Off(u32), Time(i32) }
+
+#[derive(Clone, Debug, Default)]
+pub struct CallModel {
+    pub blob: Vec<u8>,
+    pub mask: u16,
+    pub extra: Option<i32>,
+    pub needs: Vec<Need>,
+    /// a compile ERROR is documented for this call (message fragment)
+    pub error: Option<&'static str>,
+    pub printed: Vec<Pr>,
+    pub reinterp: bool,
+    pub edge: bool,
+}
+
+fn fits(v: i64, w: u32) -> bool { let bits = 8 * w; v >= -(1i64 << (bits - 1)) && v < (1i64 << bits) }
+fn natural(v: i64, w: u32, signed: bool) -> bool {
+    let bits = 8 * w;
+    if w == 4 { return true; }
+    if signed { v >= -(1i64 << (bits - 1)) && v < (1i64 << (bits - 1)) } else { v >= 0 && v < (1i64 << bits) }
+}
+fn is_edge(v: i64, w: u32) -> bool {
+    let bits = 8 * w;
+    [-(1i64 << (bits - 1)), (1i64 << (bits - 1)) - 1, (1i64 << (bits - 1)), (1i64 << bits) - 1, -1].contains(&v)
+        || v == -(1i64 << (bits - 1)) - 1 || v == (1i64 << bits)
+}
+/// what a reader of `w` little-endian bytes with the given signedness sees
+fn decode_int(v: i32, w: u32, signed: bool) -> i32 {
+    match (w, signed) {
+        (4, _) => v,
+        (2, true) => v as u16 as i16 as i32, (2, false) => v as u16 as i32,
+        (1, true) => v as u8 as i8 as i32, (1, false) => v as u8 as i32,
+        _ => unreachable!(),
+    }
+}
+
+pub fn sjis(s: &str) -> Option<Vec<u8>> {
+    let (b, _, bad) = encoding_rs::SHIFT_JIS.encode(s);
+    if bad { None } else { Some(b.into_owned()) }
+}
+
+fn apply_mask(b: &mut [u8], m: [u8; 3]) {
+    let (mut mask, mut vel, acc) = (m[0], m[1], m[2]);
+    for x in b.iter_mut() { *x ^= mask; mask = mask.wrapping_add(vel); vel = vel.wrapping_add(acc); }
+}
+
+/// Model of one call.  `own_offset`: offset of this instruction from the start of the script (the
+/// self-label used by `offsetof`).  `furi`: the furigana-quirk carry-over state of the script.
+pub fn model_call(host: Host, ps: &[P], args: &[A], own_offset: u32, furi: &mut Option<Vec<u8>>) -> CallModel {
+    let mut m = CallModel::default();
+    let mut ai = 0usize;       // index among non-padding parameters
+    let mut bit = 0u32;        // index among mask-contributing parameters
+    for p in ps {
+        match p {
+            P::Pad4 => { m.blob.extend([0u8; 4]); continue; },
+            P::Pad1 => { m.blob.push(0); continue; },
+            _ => {},
+        }
+        let a = &args[ai]; ai += 1;
+        let this_bit = bit; bit += 1;
+        let mut set_mask = |m: &mut CallModel| {
+            if this_bit < 16 { m.mask |= 1 << this_bit; } else { m.needs.push(Need::MaskOverflow); }
+        };
+        if a.is_reg() && !host.has_regs() { m.error = Some("language without registers"); }
+        match p {
+            P::Int { letter, imm, en, arg0, .. } => {
+                let (w0, signed) = int_layout(*letter);
+                // arg0 is stored in the 16-bit header field whatever the letter says
+                let w = if *arg0 { 2 } else { w0 };
+                let (v, reg) = match a { A::Int(v) => (*v, false), A::Reg(n) => (*n, true), _ => panic!("bad arg kind for int: {a:?}") };
+                if !fits(v as i64, w) {
+                    m.needs.push(Need::Narrow { letter: *letter, what: if reg { format!("reg{v}") } else { format!("{v}") } });
+                } else if !natural(v as i64, w, signed) { m.reinterp = true; }
+                if !reg && is_edge(v as i64, w) { m.edge = true; }
+                let stored = decode_int(v, w, if *arg0 { true } else { signed });
+                if *arg0 { m.extra = Some(v as u16 as i16 as i32); }
+                else { m.blob.extend(&v.to_le_bytes()[..w as usize]); }
+                if reg {
+                    if *arg0 { m.error = Some("language without registers"); }
+                    else if *imm { m.needs.push(Need::ImmReg); m.printed.push(Pr::Int(stored, en.clone())); }
+                    else { set_mask(&mut m); m.printed.push(Pr::Reg(stored)); }
+                } else {
+                    m.printed.push(Pr::Int(stored, en.clone().or_else(|| match letter { 'n' => Some("<sprite>".into()), 'N' => Some("<script>".into()), _ => None })));
+                }
+            },
+            P::Float { imm } => {
+                match a {
+                    A::Flt(b) => { m.blob.extend(b.to_le_bytes()); m.printed.push(Pr::Flt(*b)); if [0x8000_0000u32, 0x7f80_0000, 0xff80_0000].contains(b) { m.edge = true; } },
+                    A::FReg(n) => {
+                        let b = (*n as f32).to_bits();
+                        m.blob.extend(b.to_le_bytes());
+                        if *imm { m.needs.push(Need::ImmReg); m.printed.push(Pr::Flt(b)); }
+                        else { set_mask(&mut m); m.printed.push(Pr::FReg(*n)); }
+                    },
+                    _ => panic!("bad arg kind for float: {a:?}"),
+                }
+            },
+            P::Off => {
+                match a {
+                    A::LabOff => { m.blob.extend(own_offset.to_le_bytes()); m.printed.push(Pr::Off(own_offset)); },
+                    A::Int(v) => { m.blob.extend(v.to_le_bytes()); m.printed.push(Pr::Off(*v as u32)); },
+                    A::Reg(n) => { m.error = Some("compile-time constant"); m.blob.extend(n.to_le_bytes()); m.printed.push(Pr::Off(*n as u32)); },
+                    _ => panic!("bad arg kind for o: {a:?}"),
+                }
+            },
+            P::Time => {
+                match a {
+                    A::LabTime => { m.blob.extend(LABEL_TIME.to_le_bytes()); m.printed.push(Pr::Time(LABEL_TIME)); },
+                    A::Int(v) => { m.blob.extend(v.to_le_bytes()); m.printed.push(Pr::Time(*v)); },
+                    A::Reg(n) => { m.error = Some("compile-time constant"); m.blob.extend(n.to_le_bytes()); m.printed.push(Pr::Time(*n)); },
+                    _ => panic!("bad arg kind for t: {a:?}"),
+                }
+            },
+            P::Str { size, mask, furibug, .. } => {
+                let s = match a { A::Str(s) => s, _ => panic!("bad arg kind for string: {a:?}") };
+                let mut b = match sjis(s) { Some(b) => b, None => { m.error = Some("string encoding error"); vec![] } };
+                if b.iter().any(|&x| x >= 0x80) { m.edge = true; }
+                if !matches!(size, StrSize::Fixed(_, true)) { b.push(0); }
+                if *furibug { if let Some(prev) = furi.take() { b.extend(prev); } }
+                match size {
+                    StrSize::Block(bs) | StrSize::Pascal(bs) => {
+                        let bs = (*bs).max(1) as usize;
+                        if b.len() % bs == 0 || (b.len() + 1) % bs == 0 { m.edge = true; }
+                        while b.len() % bs != 0 { b.push(0); }
+                    },
+                    StrSize::Fixed(len, _) => {
+                        let len = *len as usize;
+                        if b.len() + 1 >= len { m.edge = true; }
+                        if b.len() > len { if m.error.is_none() { m.error = Some("too large for buffer"); } }
+                        b.resize(len, 0);
+                    },
+                }
+                apply_mask(&mut b, mask.unwrap_or([0, 0, 0]));
+                if *furibug && s.starts_with('|') { *furi = Some(b.clone()); }
+                if let StrSize::Pascal(_) = size { m.blob.extend((b.len() as u32).to_le_bytes()); }
+                m.blob.extend(&b);
+                m.printed.push(Pr::Str(s.clone()));
+            },
+            P::Pad1 | P::Pad4 => unreachable!(),
+        }
+    }
+    assert_eq!(ai, args.len(), "argument count does not match signature");
+    m
+}
+
+// =============================================================================================
+// Minimal binary readers (M2-style; only what C12 needs)
+
+#[derive(Clone, Debug, PartialEq)]
+pub struct RawI { pub opcode: u32, pub time: i32, pub mask: u16, pub extra: i32, pub blob: Vec<u8>, pub offset: u32 }
+
+fn rd16(b: &[u8], p: usize) -> Result<u16, String> { b.get(p..p + 2).map(|x| u16::from_le_bytes([x[0], x[1]])).ok_or_else(|| format!("read past end at {p:#x}")) }
+fn rd32(b: &[u8], p: usize) -> Result<u32, String> { b.get(p..p + 4).map(|x| u32::from_le_bytes([x[0], x[1], x[2], x[3]])).ok_or_else(|| format!("read past end at {p:#x}")) }
+
+pub fn walk(host: Host, b: &[u8]) -> Result<Vec<RawI>, String> {
+    let mut out = vec![];
+    match host {
+        Host::Anm12 => {
+            // 64-byte entry header (version u32, num_sprites u16, num_scripts u16, ...), sprite offsets,
+            // script table (id i32, offset u32); instr = opcode i16, size u16, time i16, mask u16, blob
+            let nsprites = rd16(b, 4)? as usize;
+            let nscripts = rd16(b, 6)? as usize;
+            if nscripts != 1 { return Err(format!("expected 1 script, found {nscripts}")); }
+            let start = rd32(b, 0x40 + 4 * nsprites + 4)? as usize;
+            let mut p = start;
+            loop {
+                let op = rd16(b, p)?;
+                if op == 0xFFFF { break; }
+                let size = rd16(b, p + 2)? as usize;
+                if size < 8 { return Err(format!("instruction size {size} < 8 at {p:#x}")); }
+                let blob = b.get(p + 8..p + size).ok_or("blob past end")?.to_vec();
+                out.push(RawI { opcode: op as u32, time: rd16(b, p + 4)? as i16 as i32, mask: rd16(b, p + 6)?, extra: 0, blob, offset: (p - start) as u32 });
+                p += size;
+            }
+        },
+        Host::Msg08 => {
+            // u32 count, u32 offsets; instr = time i16, opcode u8, argsize u8, blob; terminator = 4 zero bytes
+            let n = rd32(b, 0)? as usize;
+            if n != 1 { return Err(format!("expected 1 table entry, found {n}")); }
+            let start = rd32(b, 4)? as usize;
+            let mut p = start;
+            loop {
+                if p + 4 > b.len() { break; }
+                let time = rd16(b, p)? as i16 as i32;
+                let op = b[p + 2]; let n = b[p + 3] as usize;
+                if (time, op, n) == (0, 0, 0) { break; }
+                let blob = b.get(p + 4..p + 4 + n).ok_or("blob past end")?.to_vec();
+                out.push(RawI { opcode: op as u32, time, mask: 0, extra: 0, blob, offset: (p - start) as u32 });
+                p += 4 + n;
+            }
+        },
+        Host::Tl06 => {
+            // u16 num_subs, u16 0, timeline offsets (u32 ...), sub offsets; timeline instr = time i16, arg0 i16,
+            // opcode u16, size u16, blob; terminator time == -1
+            let start = rd32(b, 4)? as usize;
+            let mut p = start;
+            loop {
+                let time = rd16(b, p)? as i16 as i32;
+                if time == -1 { break; }
+                let extra = rd16(b, p + 2)? as i16 as i32;
+                let op = rd16(b, p + 4)?;
+                let size = rd16(b, p + 6)? as usize;
+                if size < 8 { return Err(format!("instruction size {size} < 8 at {p:#x}")); }
+                let blob = b.get(p + 8..p + size).ok_or("blob past end")?.to_vec();
+                out.push(RawI { opcode: op as u32, time, mask: 0, extra, blob, offset: (p - start) as u32 });
+                p += size;
+            }
+        },
+    }
+    Ok(out)
+}
+
+// =============================================================================================
+// Rendered diagnostics -> (severity, message, source lines)
+
+#[derive(Clone, Debug)]
+pub struct Diag { pub sev: String, pub msg: String, pub src_lines: Vec<usize>, pub map_lines: Vec<usize> }
+
+pub fn parse_diags(text: &str) -> Vec<Diag> {
+    let mut out: Vec<Diag> = vec![];
+    for line in text.lines() {
+        let mut started = false;
+        for sev in ["error", "warning", "bug"] {
+            if line.starts_with(sev) && (line[sev.len()..].starts_with(':') || line[sev.len()..].starts_with('[')) {
+                let msg = line.splitn(2, ": ").nth(1).unwrap_or("").to_string();
+                out.push(Diag { sev: sev.into(), msg, src_lines: vec![], map_lines: vec![] });
+                started = true;
+                break;
+            }
+        }
+        if started { continue; }
+        if let Some(d) = out.last_mut() {
+            for (pat, is_map) in [("─ <input>:", false), ("─ <input mapfile>:", true)] {
+                if let Some(i) = line.find(pat) {
+                    let rest = &line[i + pat.len()..];
+                    let num: String = rest.chars().take_while(|c| c.is_ascii_digit()).collect();
+                    if let Ok(n) = num.parse::<usize>() { if is_map { d.map_lines.push(n) } else { d.src_lines.push(n) } }
+                }
+            }
+        }
+    }
+    out
+}
+
+// =============================================================================================
+// Decompiled text -> calls
+
+#[derive(Clone, Debug)]
+pub struct TextCall { pub opcode: u32, pub args: Vec<String>, pub pseudo: Vec<String>, pub labels: Vec<String> }
+
+fn split_args(s: &str) -> Vec<String> {
+    let mut out = vec![]; let mut cur = String::new();
+    let (mut depth, mut in_str, mut esc) = (0i32, false, false);
+    for c in s.chars() {
+        if in_str { cur.push(c); if esc { esc = false } else if c == '\\' { esc = true } else if c == '"' { in_str = false } continue; }
+        match c {
+            '"' => { in_str = true; cur.push(c) },
+            '(' | '[' => { depth += 1; cur.push(c) },
+            ')' | ']' => { depth -= 1; cur.push(c) },
+            ',' if depth == 0 => { out.push(cur.trim().to_string()); cur.clear(); },
+            c => cur.push(c),
+        }
+    }
+    if !cur.trim().is_empty() { out.push(cur.trim().to_string()); }
+    out
+}
+
+/// Calls of the (single) script body in order, with the labels placed directly before each.
+pub fn parse_decompiled(text: &str, script_kw: &str) -> Result<Vec<TextCall>, String> {
+    let mut lines = text.lines();
+    loop {
+        match lines.next() {
+            None => return Err("no script in decompiled text".into()),
+            Some(l) => if l.starts_with(script_kw) && l.trim_end().ends_with('{') { break; },
+        }
+    }
+    let mut out = vec![]; let mut labels: Vec<String> = vec![];
+    for l in lines {
+        if l.starts_with('}') { return Ok(out); }
+        let t = l.trim();
+        if t.is_empty() || t.starts_with("//") { continue; }
+        if t.starts_with("ins_") && t.ends_with(");") {
+            let open = t.find('(').ok_or("no paren")?;
+            let opcode: u32 = t[4..open].parse().map_err(|_| format!("bad opcode in {t:?}"))?;
+            let mut args = vec![]; let mut pseudo = vec![];
+            for a in split_args(&t[open + 1..t.len() - 2]) { if a.starts_with('@') { pseudo.push(a) } else { args.push(a) } }
+            out.push(TextCall { opcode, args, pseudo, labels: std::mem::take(&mut labels) });
+            continue;
+        }
+        let head = t.split("//").next().unwrap().trim();
+        if let Some(name) = head.strip_suffix(':') {
+            let c0 = name.chars().next().unwrap_or(' ');
+            if c0 == '+' || c0 == '-' || c0.is_ascii_digit() { continue; } // time label
+            if name.chars().all(|c| c.is_ascii_alphanumeric() || c == '_') { labels.push(name.to_string()); continue; }
+        }
+        return Err(format!("unrecognised line in decompiled script: {t:?}"));
+    }
+    Err("unterminated script".into())
+}
+
+/// the documented literal syntax: decimal / 0x / 0b as u32 (2^31..2^32 wraps), optional minus
+fn parse_int_text(t: &str, en: &Option<String>) -> Option<i32> {
+    match (t, en.as_deref()) {
+        ("true", Some("bool")) => return Some(1),
+        ("false", Some("bool")) => return Some(0),
+        ("sprite0", Some("<sprite>")) => return Some(0),
+        ("script0", Some("<script>")) => return Some(0),
+        _ => {},
+    }
+    let (neg, body) = match t.strip_prefix('-') { Some(b) => (true, b), None => (false, t) };
+    let v: u32 = if let Some(h) = body.strip_prefix("0x") { u32::from_str_radix(h, 16).ok()? }
+        else if let Some(h) = body.strip_prefix("0b") { u32::from_str_radix(h, 2).ok()? }
+        else { body.parse().ok()? };
+    let v = v as i32;
+    Some(if neg { v.wrapping_neg() } else { v })
+}
+fn parse_float_text(t: &str) -> Option<u32> {
+    match t { "INF" => return Some(f32::INFINITY.to_bits()), "-INF" => return Some(f32::NEG_INFINITY.to_bits()), _ => {} }
+    if !t.chars().all(|c| c.is_ascii_digit() || c == '.' || c == '-') || !t.contains('.') { return None; }
+    t.parse::<f32>().ok().map(f32::to_bits)
+}
+fn parse_reg_text(t: &str, sigil: char) -> Option<i32> {
+    t.strip_prefix(sigil)?.strip_prefix("REG[")?.strip_suffix(']')?.parse().ok()
+}
+
+/// Does the printed argument denote the expected value?  `label_off`: label name -> script offset.
+fn printed_matches(exp: &Pr, text: &str, label_off: &BTreeMap<String, u32>) -> bool {
+    match exp {
+        Pr::Int(v, en) => parse_int_text(text, en) == Some(*v),
+        Pr::Reg(n) => parse_reg_text(text, '$') == Some(*n),
+        Pr::FReg(n) => parse_reg_text(text, '%') == Some(*n),
+        Pr::Flt(b) => parse_float_text(text) == Some(*b),
+        Pr::Str(s) => unquote(text).as_deref() == Some(s.as_str()),
+        Pr::Off(off) => text.strip_prefix("offsetof(").and_then(|x| x.strip_suffix(')')).and_then(|n| label_off.get(n)) == Some(off),
+        Pr::Time(v) => {
+            if let Some(n) = text.strip_prefix("timeof(").and_then(|x| x.strip_suffix(')')) { label_off.contains_key(n) && *v == LABEL_TIME }
+            else { parse_int_text(text, &None) == Some(*v) }
+        },
+    }
+}
+
+// =============================================================================================
+// Cases, groups, execution
+
+#[derive(Clone, Debug)]
+pub struct Case { pub sig: usize, pub calls: Vec<Vec<A>>, pub family: &'static str }
+
+#[derive(Default)]
+pub struct Acc {
+    pub evaluations: u64,
+    pub traces: u64,
+    pub cases_done: u64,
+    pub nontrivial: u64,
+    pub planned: u64,
+    pub families: BTreeMap<String, (u64, u64)>,
+    pub outcomes: BTreeMap<String, u64>,
+    pub failures: Vec<Failure>,
+    pub notes: BTreeMap<String, u64>,
+}
+impl Acc {
+    fn outcome(&mut self, k: &str) { *self.outcomes.entry(k.to_string()).or_insert(0) += 1; self.cases_done += 1; }
+    fn note(&mut self, k: &str) { *self.notes.entry(k.to_string()).or_insert(0) += 1; }
+    fn merge(&mut self, o: Acc) {
+        self.evaluations += o.evaluations; self.traces += o.traces; self.cases_done += o.cases_done; self.nontrivial += o.nontrivial; self.planned += o.planned;
+        for (k, v) in o.families { let e = self.families.entry(k).or_insert((0, 0)); e.0 += v.0; e.1 += v.1; }
+        for (k, v) in o.outcomes { *self.outcomes.entry(k).or_insert(0) += v; }
+        for (k, v) in o.notes { *self.notes.entry(k).or_insert(0) += v; }
+        self.failures.extend(o.failures);
+    }
+}
+
+struct BCall { case: usize, line: usize, opcode: u32, model: CallModel }
+struct Built { mapfile: String, source: String, calls: Vec<BCall>, sig_of_mapline: BTreeMap<usize, usize> }
+
+fn build(host: Host, sigs: &[Vec<P>], cases: &[Case], live: &[usize], corrupt: bool) -> Built {
+    let mut mapfile = String::from(host.mapfile_head());
+    let mut map_line = host.mapfile_head().matches('\n').count();
+    let mut op_of_sig: BTreeMap<usize, u32> = BTreeMap::new();
+    let mut sig_of_mapline = BTreeMap::new();
+    let mut source = String::from(host.source_head());
+    let mut line = host.source_head().matches('\n').count();
+    let mut calls = vec![];
+    let mut offset = 0u32;
+    let mut furi: Option<Vec<u8>> = None;
+    let mut nlabel = 0usize;
+    let mut corrupt = corrupt;
+    for &ci in live {
+        let case = &cases[ci];
+        let next = host.opcode_base() + op_of_sig.len() as u32;
+        let opcode = *op_of_sig.entry(case.sig).or_insert_with(|| {
+            mapfile.push_str(&format!("{} {}\n", next, sig_text(&sigs[case.sig])));
+            map_line += 1;
+            sig_of_mapline.insert(map_line, case.sig);
+            next
+        });
+        for args in &case.calls {
+            let label = format!("L{nlabel}");
+            if args.iter().any(|a| matches!(a, A::LabOff | A::LabTime)) { source.push_str(&format!("{label}:\n")); line += 1; nlabel += 1; }
+            let mut model = model_call(host, &sigs[case.sig], args, offset, &mut furi);
+            if corrupt && !model.blob.is_empty() { model.blob[0] ^= 1; corrupt = false; }
+            offset += host.header_size() + model.blob.len() as u32;
+            let text: Vec<String> = args.iter().map(|a| a.src(&label)).collect();
+            source.push_str(&format!("    ins_{}({});\n", opcode, text.join(", ")));
+            line += 1;
+            calls.push(BCall { case: ci, line, opcode, model });
+        }
+    }
+    source.push_str("}\n");
+    Built { mapfile, source, calls, sig_of_mapline }
+}
+
+fn err_slug(e: &str) -> &'static str {
+    match e {
+        "compile-time constant" => "reg-in-jump-arg",
+        "too large for buffer" => "string-too-large",
+        "string encoding error" => "string-unencodable",
+        "language without registers" => "reg-without-registers",
+        _ => "other",
+    }
+}
+
+fn detail(host: Host, sigs: &[Vec<P>], case: &Case, note: Value) -> Value {
+    json!({
+        "host": host.name(), "family": case.family, "sig": sig_text(&sigs[case.sig]),
+        "calls": case.calls.iter().map(|c| c.iter().map(|a| a.to_json()).collect::<Vec<_>>()).collect::<Vec<_>>(),
+        "note": note,
+    })
+}
+
+fn short(s: &str) -> String { s.lines().filter(|l| !l.trim().is_empty()).take(14).collect::<Vec<_>>().join("\n") }
+
+fn has_pad_before_arg(ps: &[P]) -> bool {
+    match ps.iter().position(|p| p.is_pad()) { Some(i) => ps[i..].iter().any(|p| !p.is_pad()), None => false }
+}
+
+/// Run one group of cases through compile -> (walk, compare) -> decompile -> compare -> recompile.
+pub fn check_group(host: Host, sigs: &[Vec<P>], cases: &[Case], idxs: Vec<usize>, acc: &mut Acc, corrupt: bool) {
+    let tool = host.tool();
+    let mut live = idxs;
+    let split = |live: &[usize], acc: &mut Acc| {
+        let (l, r) = live.split_at(live.len() / 2);
+        check_group(host, sigs, cases, l.to_vec(), acc, false);
+        check_group(host, sigs, cases, r.to_vec(), acc, false);
+    };
+    // ---- phase 1: compile; cases whose line carries an error are judged and removed
+    let (built, bytes, cdiag) = loop {
+        if live.is_empty() { return; }
+        let b = build(host, sigs, cases, &live, corrupt);
+        let c = drive::compile(tool, b.source.as_bytes(), &CompileOpts { mapfiles: vec![&b.mapfile], ..Default::default() });
+        acc.evaluations += 1;
+        if let Some(p) = &c.panic {
+            if live.len() > 1 { return split(&live, acc); }
+            let case = &cases[live[0]];
+            acc.failures.push(Failure { signature: p.signature(), detail: detail(host, sigs, case, json!({"stage": "compile", "panic": p.text})) });
+            acc.outcome("violation:panic");
+            return;
+        }
+        if let Some(bytes) = c.bytes {
+            // calls for which an ERROR is documented but which compiled: judged by the presence of a diagnostic
+            // and taken out (their bytes are not a faithful encoding, so nothing further is compared)
+            let diags = parse_diags(&c.diag);
+            let mut out: BTreeSet<usize> = BTreeSet::new();
+            for bc in b.calls.iter() {
+                if let Some(e) = bc.model.error {
+                    if !out.insert(bc.case) { continue; }
+                    if diags.iter().any(|d| d.src_lines.contains(&bc.line)) { acc.outcome("diagnosed-warning-instead-of-error"); }
+                    else {
+                        acc.outcome("violation:undiagnosed");
+                        acc.failures.push(Failure { signature: format!("C12:undiagnosed:{}", err_slug(e)), detail: detail(host, sigs, &cases[bc.case], json!({"diag": short(&c.diag)})) });
+                    }
+                }
+            }
+            if out.is_empty() { break (b, bytes, c.diag); }
+            live.retain(|ci| !out.contains(ci));
+            continue;
+        }
+        let diags = parse_diags(&c.diag);
+        let mut msgs: BTreeMap<usize, Vec<String>> = BTreeMap::new();  // case index -> error messages
+        let mut rejected_sig: BTreeMap<usize, Vec<String>> = BTreeMap::new();
+        for d in diags.iter().filter(|d| d.sev != "warning") {
+            for bc in &b.calls { if d.src_lines.contains(&bc.line) { msgs.entry(bc.case).or_default().push(d.msg.clone()); } }
+            for ml in &d.map_lines { if let Some(&s) = b.sig_of_mapline.get(ml) { rejected_sig.entry(s).or_default().push(d.msg.clone()); } }
+        }
+        for &ci in &live { if let Some(m) = rejected_sig.get(&cases[ci].sig) { msgs.entry(ci).or_default().extend(m.iter().map(|x| format!("(mapfile) {x}"))); } }
+        if msgs.is_empty() {
+            if live.len() > 1 { return split(&live, acc); }
+            msgs.insert(live[0], diags.iter().map(|d| d.msg.clone()).collect());
+            if !drive::has_error(&c.diag) {
+                let case = &cases[live[0]];
+                acc.failures.push(Failure { signature: "C12:failure-without-error-diagnostic".into(), detail: detail(host, sigs, case, json!({"diag": short(&c.diag)})) });
+                acc.outcome("violation:failure-without-error-diagnostic");
+                return;
+            }
+        }
+        for (&ci, m) in &msgs {
+            let case = &cases[ci];
+            let ps = &sigs[case.sig];
+            let models: Vec<&CallModel> = b.calls.iter().filter(|bc| bc.case == ci).map(|bc| &bc.model).collect();
+            let expected = models.iter().find_map(|mm| mm.error);
+            let has_needs = models.iter().any(|mm| !mm.needs.is_empty());
+            if let Some(e) = expected {
+                if m.iter().any(|x| x.contains(e)) { acc.outcome("diagnosed-error") } else { acc.outcome("diagnosed-error-other-message"); acc.note(&format!("expected '{e}' got '{}'", m.first().cloned().unwrap_or_default())); }
+            } else if has_needs {
+                acc.outcome("diagnosed-error");
+            } else {
+                let sig = if m.iter().any(|x| x.starts_with("(mapfile)")) { format!("C12:valid-sig-rejected:{}", sig_text(ps)) }
+                    else if has_pad_before_arg(ps) && m.iter().any(|x| x.contains("type error")) { "C12:padding-shifts-params:type-error".to_string() }
+                    else if has_pad_before_arg(ps) && m.iter().any(|x| x.contains("compile-time constant")) { "C12:padding-shifts-params:const-error".to_string() }
+                    else { format!("C12:unexpected-error:{}", sig_text(ps)) };
+                acc.outcome(&format!("violation:{}", sig.splitn(3, ':').nth(1).unwrap_or("?")));
+                acc.failures.push(Failure { signature: sig, detail: detail(host, sigs, case, json!({"stage": "compile", "messages": m})) });
+            }
+        }
+        live.retain(|ci| !msgs.contains_key(ci));
+    };
+    // ---- phase 2: bytes + mask vs M7
+    let n_cases = live.len();
+    let single = n_cases == 1;
+    let mut post = Acc::default();
+    let mut verdict: BTreeMap<usize, String> = BTreeMap::new();
+    let fail = |post: &mut Acc, verdict: &mut BTreeMap<usize, String>, ci: usize, sig: String, note: Value| {
+        verdict.entry(ci).or_insert_with(|| format!("violation:{}", sig.splitn(3, ':').nth(1).unwrap_or("?")));
+        post.failures.push(Failure { signature: sig, detail: detail(host, sigs, &cases[ci], note) });
+    };
+    let instrs = match walk(host, &bytes) {
+        Ok(i) if i.len() == built.calls.len() => i,
+        other => {
+            if !single { return split(&live, acc); }
+            let why = match other { Ok(i) => format!("{} instructions written for {} calls", i.len(), built.calls.len()), Err(e) => e };
+            fail(&mut post, &mut verdict, live[0], format!("C12:written-file-unreadable:{}", sig_text(&sigs[cases[live[0]].sig])), json!({"why": why}));
+            acc.outcome(&verdict[&live[0]]); acc.merge(post);
+            return;
+        },
+    };
+    let diags = parse_diags(&cdiag);
+    let mut skip = vec![false; built.calls.len()];
+    for (k, bc) in built.calls.iter().enumerate() {
+        let ins = &instrs[k];
+        let ps = &sigs[cases[bc.case].sig];
+        let st = sig_text(ps);
+        let line_diags: Vec<&Diag> = diags.iter().filter(|d| d.src_lines.contains(&bc.line)).collect();
+        let has_diag = !line_diags.is_empty();
+        post.traces += 1;
+        if ins.opcode != bc.opcode {
+            fail(&mut post, &mut verdict, bc.case, format!("C12:opcode:{st}"), json!({"expected": bc.opcode, "found": ins.opcode}));
+            skip[k] = true; continue;
+        }
+        if let Some(e) = bc.model.error {
+            skip[k] = true;
+            if has_diag { verdict.entry(bc.case).or_insert("diagnosed-warning".into()); }
+            else { fail(&mut post, &mut verdict, bc.case, format!("C12:undiagnosed:{}", err_slug(e)), json!({"call": k, "blob": hex(&ins.blob), "mask": ins.mask})); }
+            continue;
+        }
+        let mut exact = true;
+        for need in &bc.model.needs {
+            match need {
+                Need::Narrow { letter, what } => {
+                    exact = false;
+                    if !has_diag { fail(&mut post, &mut verdict, bc.case, format!("C12:silent-narrowing:{letter}:{what}"), json!({"call": k, "written_blob": hex(&ins.blob), "diag": short(&cdiag)})); }
+                },
+                Need::MaskOverflow => {
+                    exact = false;
+                    if !has_diag { fail(&mut post, &mut verdict, bc.case, "C12:mask-bit-dropped:beyond-16".into(), json!({"call": k, "written_mask": ins.mask})); }
+                },
+                Need::ImmReg => {
+                    if !has_diag { fail(&mut post, &mut verdict, bc.case, "C12:undiagnosed:reg-in-imm".into(), json!({"call": k, "written_mask": ins.mask})); }
+                },
+            }
+        }
+        if !bc.model.needs.is_empty() && has_diag { verdict.entry(bc.case).or_insert("diagnosed-warning".into()); }
+        if !exact { skip[k] = true; continue; }
+        if ins.blob != bc.model.blob {
+            fail(&mut post, &mut verdict, bc.case, format!("C12:bytes:{st}"), json!({"call": k, "expected": hex(&bc.model.blob), "found": hex(&ins.blob)}));
+            skip[k] = true;
+        }
+        if ins.mask != bc.model.mask {
+            fail(&mut post, &mut verdict, bc.case, format!("C12:mask:{st}"), json!({"call": k, "expected": bc.model.mask, "found": ins.mask}));
+            skip[k] = true;
+        }
+        if host == Host::Tl06 && ins.extra != bc.model.extra.unwrap_or(0) {
+            fail(&mut post, &mut verdict, bc.case, format!("C12:arg0:{st}"), json!({"call": k, "expected": bc.model.extra, "found": ins.extra}));
+            skip[k] = true;
+        }
+        if ins.time != LABEL_TIME { fail(&mut post, &mut verdict, bc.case, format!("C12:time:{st}"), json!({"found": ins.time})); }
+    }
+    // ---- phase 3: decompile, compare printed values
+    let d = drive::decompile(tool, &bytes, &DecompOpts { width: 1_000_000, mapfiles: vec![&built.mapfile], ..Default::default() });
+    acc.evaluations += 1;
+    let text = match (&d.panic, &d.text) {
+        (None, Some(t)) => t.clone(),
+        _ => {
+            if !single { return split(&live, acc); }
+            let sig = match &d.panic { Some(p) => p.signature(), None => format!("C12:decompile-failed:{}", sig_text(&sigs[cases[live[0]].sig])) };
+            fail(&mut post, &mut verdict, live[0], sig, json!({"stage": "decompile", "diag": short(&d.diag), "panic": d.panic.as_ref().map(|p| p.text.clone())}));
+            acc.outcome(&verdict[&live[0]]); acc.merge(post);
+            return;
+        },
+    };
+    if !d.diag.trim().is_empty() { post.note("groups-with-decompile-diagnostics"); }
+    let tcalls = match parse_decompiled(&text, "script ") {
+        Ok(t) if t.len() == built.calls.len() => t,
+        other => {
+            if !single { return split(&live, acc); }
+            let why = match other { Ok(t) => format!("{} calls printed for {} instructions", t.len(), built.calls.len()), Err(e) => e };
+            fail(&mut post, &mut verdict, live[0], format!("C12:decompiled-text:{}", sig_text(&sigs[cases[live[0]].sig])), json!({"why": why, "text": short(&text)}));
+            acc.outcome(&verdict[&live[0]]); acc.merge(post);
+            return;
+        },
+    };
+    let mut label_off = BTreeMap::new();
+    for (k, t) in tcalls.iter().enumerate() { for l in &t.labels { label_off.insert(l.clone(), instrs[k].offset); } }
+    for (k, bc) in built.calls.iter().enumerate() {
+        if skip[k] { continue; }
+        let t = &tcalls[k];
+        let st = sig_text(&sigs[cases[bc.case].sig]);
+        post.traces += 1;
+        if t.opcode != bc.opcode || t.args.len() != bc.model.printed.len() || !t.pseudo.is_empty() {
+            fail(&mut post, &mut verdict, bc.case, format!("C12:decode-shape:{st}"), json!({"call": k, "printed": format!("{t:?}")}));
+            continue;
+        }
+        for (j, (e, a)) in bc.model.printed.iter().zip(&t.args).enumerate() {
+            if !printed_matches(e, a, &label_off) {
+                fail(&mut post, &mut verdict, bc.case, format!("C12:decode:{st}"), json!({"call": k, "arg": j, "expected": format!("{e:?}"), "printed": a, "decompile_diag": short(&d.diag)}));
+                break;
+            }
+        }
+    }
+    // ---- phase 4: recompile the decompiled text
+    let r = drive::compile(tool, text.as_bytes(), &CompileOpts { mapfiles: vec![&built.mapfile], ..Default::default() });
+    acc.evaluations += 1;
+    match (&r.panic, &r.bytes) {
+        (None, Some(b2)) if *b2 == bytes => { post.traces += built.calls.len() as u64; },
+        (None, Some(b2)) => {
+            let culprit = match walk(host, b2) {
+                Ok(i2) => (0..instrs.len().min(i2.len())).find(|&k| instrs[k] != i2[k]),
+                Err(_) => None,
+            };
+            match culprit {
+                Some(k) => { let ci = built.calls[k].case; fail(&mut post, &mut verdict, ci, format!("C12:recompile:{}", sig_text(&sigs[cases[ci].sig])), json!({"call": k, "printed": format!("{:?}", tcalls[k])})); },
+                None if single => fail(&mut post, &mut verdict, live[0], format!("C12:recompile:{}", sig_text(&sigs[cases[live[0]].sig])), json!({"why": "bytes differ"})),
+                None => return split(&live, acc),
+            }
+        },
+        _ => {
+            if !single { return split(&live, acc); }
+            let sig = match &r.panic { Some(p) => p.signature(), None => format!("C12:recompile-error:{}", sig_text(&sigs[cases[live[0]].sig])) };
+            fail(&mut post, &mut verdict, live[0], sig, json!({"stage": "recompile", "diag": short(&r.diag), "text": short(&text)}));
+        },
+    }
+    // ---- outcomes
+    for &ci in &live {
+        match verdict.get(&ci) {
+            Some(v) => post.outcome(v),
+            None => {
+                let re = built.calls.iter().any(|bc| bc.case == ci && bc.model.reinterp);
+                post.outcome(if re { "ok-sign-reinterpreted" } else { "ok" });
+            },
+        }
+    }
+    acc.merge(post);
+}
+
+fn hex(b: &[u8]) -> String { b.iter().map(|x| format!("{x:02x}")).collect::<Vec<_>>().join(" ") }
+
+// =============================================================================================
+// Generation: per-parameter boundary sets, one deviation at a time
+
+fn flt(f: f32) -> A { A::Flt(f.to_bits()) }
+
+fn default_arg(p: &P, k: usize) -> A {
+    match p {
+        P::Int { .. } => A::Int(k as i32 + 1),
+        P::Float { .. } => flt(k as f32 + 1.5),
+        P::Off => A::LabOff,
+        P::Time => A::LabTime,
+        P::Str { size: StrSize::Fixed(0, _), .. } => A::Str("".into()),
+        P::Str { size: StrSize::Fixed(1, false), .. } => A::Str("".into()),
+        P::Str { size: StrSize::Fixed(1, true), .. } => A::Str("a".into()),
+        P::Str { .. } => A::Str("ab".into()),
+        P::Pad1 | P::Pad4 => unreachable!(),
+    }
+}
+
+fn alt_values(p: &P) -> Vec<A> {
+    let i = |v: &[i64]| v.iter().map(|&x| A::Int(x as i32)).collect::<Vec<_>>();
+    match p {
+        P::Int { letter, arg0, en, .. } => {
+            let w = if *arg0 { 2 } else { int_layout(*letter).0 };
+            let mut v = match w {
+                4 => i(&[0, -1, i32::MAX as i64, i32::MIN as i64, 0x7FFF, 0x8000, 0xFFFF, 0x10000]),
+                2 => i(&[0, -1, -32768, 32767, 32768, 65535, 65536, -32769, i32::MAX as i64, i32::MIN as i64]),
+                _ => i(&[0, -1, -128, 127, 128, 255, 256, -129, 65536, i32::MIN as i64]),
+            };
+            if en.is_some() { v.push(A::Int(1)); v.push(A::Int(2)); }
+            v
+        },
+        P::Float { .. } => vec![flt(0.0), flt(-0.0), flt(-1.5), flt(1e30), flt(1e-30), flt(f32::INFINITY), flt(f32::NEG_INFINITY), flt(16777216.0), flt(0.1)],
+        P::Off => vec![A::Int(0)],
+        P::Time => vec![A::Int(7), A::Int(LABEL_TIME), A::Int(-1)],
+        P::Str { size, .. } => {
+            let st = |x: &str| A::Str(x.to_string());
+            match size {
+                StrSize::Block(_) | StrSize::Pascal(_) => vec![st(""), st("a"), st("abc"), st("abcd"), st("abcde"), st("abcdefg"), st("abcdefgh"), st("ソ"), st("ソa"), st("aソ\"\\"), st("a\nb"), st("|f"), st("€")],
+                StrSize::Fixed(len, _) => {
+                    let len = *len as usize;
+                    let mut v = vec![st("")];
+                    for n in [len.saturating_sub(2), len.saturating_sub(1), len, len + 1] { if n > 0 { v.push(A::Str("a".repeat(n))); } }
+                    if len >= 2 { v.push(A::Str("ソ".repeat(len / 2))); v.push(A::Str("ソ".repeat(len / 2 - 1) + "a")); }
+                    v.push(st("€"));
+                    v
+                },
+            }
+        },
+        P::Pad1 | P::Pad4 => unreachable!(),
+    }
+}
+
+/// register alternatives for the k-th non-padding parameter; the first one fits the parameter
+fn reg_alts(p: &P, k: usize) -> Vec<A> {
+    let k = k as i32;
+    match p {
+        P::Int { arg0: true, .. } => vec![A::Reg(20000 + k)],
+        P::Int { letter, .. } => match int_layout(*letter).0 { 4 => vec![A::Reg(20000 + k)], 2 => vec![A::Reg(20000 + k), A::Reg(70000 + k)], _ => vec![A::Reg(100 + k), A::Reg(20000 + k)] },
+        P::Float { .. } => vec![A::FReg(30000 + k)],
+        P::Off | P::Time => vec![A::Reg(20000 + k)],
+        _ => vec![],
+    }
+}
+
+#[derive(Clone, Copy, PartialEq)]
+pub enum Depth { Full, Long, Cross }
+
+/// Argument lists for one signature: the default list, every single value deviation, registers at
+/// <= 2 positions.  `Long` (length-16 family) restricts value deviations and register pairs to the
+/// special positions (first, last, non-`S`); `Cross` adds (value deviation x one register elsewhere).
+pub fn arglists(ps: &[P], host: Host, depth: Depth) -> Vec<Vec<A>> {
+    let np: Vec<&P> = ps.iter().filter(|p| !p.is_pad()).collect();
+    let def: Vec<A> = np.iter().enumerate().map(|(k, p)| default_arg(p, k)).collect();
+    let mut out = vec![def.clone()];
+    let plain_s = pint('S');
+    let special: Vec<bool> = np.iter().enumerate().map(|(k, p)| depth != Depth::Long || k == 0 || k + 1 == np.len() || **p != plain_s).collect();
+    for (k, p) in np.iter().enumerate() {
+        if !special[k] { continue; }
+        for a in alt_values(p) { if a != def[k] { let mut l = def.clone(); l[k] = a; out.push(l); } }
+    }
+    if host.has_regs() {
+        for (k, p) in np.iter().enumerate() {
+            for a in reg_alts(p, k) { let mut l = def.clone(); l[k] = a; out.push(l); }
+        }
+        for k in 0..np.len() { for j in k + 1..np.len() {
+            if !special[k] || !special[j] { continue; }
+            if matches!(np[k], P::Off | P::Time) || matches!(np[j], P::Off | P::Time) { continue; }
+            if let (Some(a), Some(b)) = (reg_alts(np[k], k).first().cloned(), reg_alts(np[j], j).first().cloned()) {
+                let mut l = def.clone(); l[k] = a; l[j] = b; out.push(l);
+            }
+        } }
+        if depth == Depth::Cross {
+            for (k, p) in np.iter().enumerate() { for a in alt_values(p) { if a == def[k] { continue; }
+                for j in 0..np.len() { if j == k || matches!(np[j], P::Off | P::Time) { continue; }
+                    if let Some(b) = reg_alts(np[j], j).first().cloned() { let mut l = def.clone(); l[k] = a.clone(); l[j] = b; out.push(l); }
+                }
+            } }
+        }
+    } else {
+        // one register per register-typed position: must be refused in a language without registers
+        for (k, p) in np.iter().enumerate() { if let Some(a) = reg_alts(p, k).first().cloned() { let mut l = def.clone(); l[k] = a; out.push(l); } }
+    }
+    out
+}
+
+pub fn base_alphabet() -> Vec<P> {
+    let mut v: Vec<P> = "SsUuCcbf".chars().map(|c| if c == 'f' { P::Float { imm: false } } else { pint(c) }).collect();
+    v.extend([P::Pad4, P::Pad1, pint('n'), pint('N'), pint('E'), P::Off, P::Time,
+        pstr('z', StrSize::Block(4), None, false), pstr('m', StrSize::Block(4), Some(MASK77), false)]);
+    v
+}
+
+pub fn attr_variants() -> Vec<P> {
+    let mut v = vec![
+        pint_a('S', true, false, None), pint_a('S', false, true, None), pint_a('S', true, true, None),
+        pint_a('s', true, false, None), pint_a('s', false, true, None), pint_a('u', false, true, None), pint_a('u', true, false, None),
+        pint_a('b', true, false, None), pint_a('b', false, true, None), pint_a('c', true, false, None), pint_a('c', false, true, None),
+        pint_a('U', false, true, None), pint_a('C', true, false, None), pint_a('n', true, false, None),
+        pint_a('S', false, false, Some("bool")), pint_a('s', false, false, Some("bool")), pint_a('b', false, false, Some("bool")),
+        pint_a('U', false, true, Some("bool")), pint_a('S', true, false, Some("bool")),
+        P::Float { imm: true },
+    ];
+    for (l, m) in [('z', None), ('m', Some(MASK77))] {
+        v.extend([pstr(l, StrSize::Block(1), m, false), pstr(l, StrSize::Block(8), m, false), pstr(l, StrSize::Block(3), m, false),
+            pstr(l, StrSize::Fixed(8, false), m, false), pstr(l, StrSize::Fixed(8, true), m, false),
+            pstr(l, StrSize::Fixed(1, false), m, false), pstr(l, StrSize::Fixed(1, true), m, false), pstr(l, StrSize::Fixed(0, true), m, false)]);
+    }
+    v.extend([pstr('m', StrSize::Block(4), Some([0xff, 0, 0]), false), pstr('z', StrSize::Block(4), Some(MASK77), false),
+        pstr('p', StrSize::Pascal(4), None, false), pstr('p', StrSize::Pascal(1), None, false), pstr('p', StrSize::Pascal(4), Some(MASK77), false),
+        pstr('m', StrSize::Block(4), Some(MASK77), true), pstr('m', StrSize::Fixed(8, false), Some(MASK77), true)]);
+    v
+}
+
+/// every sequence over `alpha` of length 1..=max_len
+pub fn all_seqs(alpha: &[P], max_len: usize) -> Vec<Vec<P>> {
+    let mut out = vec![]; let mut cur: Vec<Vec<P>> = vec![vec![]];
+    for _ in 0..max_len {
+        let mut next = vec![];
+        for s in &cur { for a in alpha { let mut t = s.clone(); t.push(a.clone()); next.push(t); } }
+        out.extend(next.iter().cloned());
+        cur = next;
+    }
+    out
+}
+
+// =============================================================================================
+// Invalid signatures must be rejected by the mapfile loader with an error diagnostic
+
+/// `items`: (signature text, reason).  One mapfile with all of them; every line must carry an error.
+pub fn check_rejects(host: Host, items: &[(String, &'static str)], acc: &mut Acc) {
+    let tool = host.tool();
+    let mut mapfile = String::from(host.mapfile_head());
+    let first_line = host.mapfile_head().matches('\n').count() + 1;
+    for (k, (t, _)) in items.iter().enumerate() { mapfile.push_str(&format!("{} {}\n", host.opcode_base() as usize + k, t)); }
+    let source = format!("{}}}\n", host.source_head());
+    let c = drive::compile(tool, source.as_bytes(), &CompileOpts { mapfiles: vec![&mapfile], ..Default::default() });
+    acc.evaluations += 1;
+    if c.panic.is_some() && items.len() > 1 { for it in items { check_rejects(host, std::slice::from_ref(it), acc); } return; }
+    let diags = parse_diags(&c.diag);
+    for (k, (t, reason)) in items.iter().enumerate() {
+        acc.traces += 1;
+        let det = |note: Value| json!({"host": host.name(), "family": "sig-reject", "sig": t, "reason": reason, "note": note});
+        if let Some(p) = &c.panic {
+            acc.failures.push(Failure { signature: p.signature(), detail: det(json!({"panic": p.text})) });
+            acc.outcome("violation:panic"); continue;
+        }
+        let errs: Vec<&Diag> = diags.iter().filter(|d| d.sev != "warning" && d.map_lines.contains(&(first_line + k))).collect();
+        if !errs.is_empty() && c.bytes.is_none() { acc.outcome("sig-rejected"); continue; }
+        if items.len() > 1 { check_rejects(host, &[(t.clone(), *reason)], acc); continue; }
+        if c.bytes.is_none() && drive::has_error(&c.diag) { acc.outcome("sig-rejected"); continue; }
+        // accepted: record what happens when it is then used
+        let use_src = format!("{}    ins_{}({});\n}}\n", host.source_head(), host.opcode_base(), if t.contains('z') || t.contains('m') || t.contains('p') { "\"ab\"" } else { "1" });
+        let u = drive::compile(tool, use_src.as_bytes(), &CompileOpts { mapfiles: vec![&mapfile], ..Default::default() });
+        acc.evaluations += 1;
+        let letter = t.chars().next().unwrap_or('?');
+        acc.failures.push(Failure { signature: format!("C12:invalid-sig-accepted:{reason}:{letter}"), detail: det(json!({
+            "load_diag": short(&c.diag), "use_panic": u.panic.as_ref().map(|p| p.text.clone()), "use_diag": short(&u.diag), "use_compiled": u.bytes.is_some() })) });
+        acc.outcome("violation:invalid-sig-accepted");
+    }
+}
+
+// =============================================================================================
+// The run
+
+struct Plan { host: Host, sigs: Vec<Vec<P>>, meta: Vec<(&'static str, Depth)>, groups: Vec<Vec<usize>>, rejects: Vec<(String, &'static str)>, est: usize }
+
+impl Plan {
+    fn new(host: Host) -> Plan { Plan { host, sigs: vec![], meta: vec![], groups: vec![], rejects: vec![], est: 0 } }
+    fn cases_of_group(&self, gi: usize) -> Vec<Case> {
+        let mut out = vec![];
+        for &si in &self.groups[gi] {
+            let (family, depth) = self.meta[si];
+            for args in arglists(&self.sigs[si], self.host, depth) { out.push(Case { sig: si, calls: vec![args], family }); }
+        }
+        out
+    }
+}
+
+/// Adds a signature (deduplicated by text); groups are cut by an estimate of the number of cases.
+fn add_sig(plan: &mut Plan, seen: &mut BTreeSet<String>, ps: Vec<P>, family: &'static str, depth: Depth, per_group: &mut Vec<usize>, group_cap: usize) {
+    let text = sig_text(&ps);
+    if !seen.insert(text.clone()) { return; }
+    if let Err(why) = sig_validity(&ps, plan.host) { plan.rejects.push((text, why)); return; }
+    let m = ps.iter().filter(|p| !p.is_pad()).count();
+    plan.est += match depth { Depth::Full => 1 + 11 * m + m * m / 2, Depth::Long => 45, Depth::Cross => 1 + 11 * m + 10 * m * m };
+    per_group.push(plan.sigs.len());
+    plan.sigs.push(ps);
+    plan.meta.push((family, depth));
+    if plan.est >= group_cap || per_group.len() >= plan.host.max_sigs() { plan.groups.push(std::mem::take(per_group)); plan.est = 0; }
+}
+
+fn plan_anm(thorough: bool) -> Plan {
+    let mut plan = Plan::new(Host::Anm12);
+    let mut seen = BTreeSet::new();
+    let mut g = vec![];
+    let cap = 600;
+    let alpha = base_alphabet();
+    // A: exhaustive short signatures
+    for ps in all_seqs(&alpha, if thorough { 4 } else { 3 }) {
+        let depth = if thorough && ps.len() <= 3 { Depth::Cross } else { Depth::Full };
+        add_sig(&mut plan, &mut seen, ps, "short", depth, &mut g, cap);
+    }
+    // B: attribute variants alone and next to each context symbol
+    let ctx = [pint('S'), pint('s'), pint('b'), P::Float { imm: false }, P::Pad4, P::Pad1, pstr('z', StrSize::Block(4), None, false)];
+    let vars = attr_variants();
+    for v in &vars {
+        add_sig(&mut plan, &mut seen, vec![v.clone()], "attr", Depth::Cross, &mut g, cap);
+        for c in &ctx {
+            add_sig(&mut plan, &mut seen, vec![c.clone(), v.clone()], "attr", Depth::Cross, &mut g, cap);
+            add_sig(&mut plan, &mut seen, vec![v.clone(), c.clone()], "attr", Depth::Cross, &mut g, cap);
+            if thorough { for c2 in &ctx { add_sig(&mut plan, &mut seen, vec![c.clone(), v.clone(), c2.clone()], "attr", Depth::Full, &mut g, cap); } }
+        }
+    }
+    if thorough { for v in &vars { for w in &vars { add_sig(&mut plan, &mut seen, vec![v.clone(), w.clone()], "attr", Depth::Full, &mut g, cap); } } }
+    // malformed attribute combinations (must be rejected)
+    for (t, why) in [("z", "string-without-size"), ("m(bs=4)", "m-without-mask"), ("p(len=4)", "p-with-len"), ("z(bs=4;len=4)", "bs-and-len"),
+        ("S(arg0)", "arg0-dword"), ("s(arg0)", "arg0-outside-timeline"), ("Ss(arg0)", "arg0-not-first"), ("Q", "unknown-letter"), ("S(", "unclosed-attrs"),
+        ("z(bs=0)", "bs-zero"), ("m(bs=0;mask=0,0,0)", "bs-zero"), ("p(bs=0)", "bs-zero"), ("Sz(bs=0)", "bs-zero")] {
+        if seen.insert(t.to_string()) { plan.rejects.push((t.to_string(), why)); }
+    }
+    // C: length 16 with <= 2 non-S positions
+    let s = pint('S');
+    let others: Vec<P> = alpha.iter().filter(|p| **p != s).cloned().collect();
+    let small: Vec<P> = vec![P::Pad4, P::Pad1, pint('s'), P::Float { imm: false }];
+    for i in 0..16 { for a in &others {
+        let mut ps = vec![s.clone(); 16]; ps[i] = a.clone();
+        add_sig(&mut plan, &mut seen, ps, "len16", Depth::Long, &mut g, cap);
+    } }
+    let two: &[P] = if thorough { &others } else { &small };
+    for i in 0..16 { for j in i + 1..16 { if !thorough && !(j == i + 1 || i == 0 || j == 15) { continue; } for a in two { for b in two {
+        let mut ps = vec![s.clone(); 16]; ps[i] = a.clone(); ps[j] = b.clone();
+        add_sig(&mut plan, &mut seen, ps, "len16", Depth::Long, &mut g, cap);
+    } } } }
+    // D: more than 16 parameters (mask bits beyond the 16th do not exist)
+    for n in [17usize, 18, 20] {
+        for tail in [s.clone(), P::Float { imm: false }, pint('s')] {
+            let mut ps = vec![s.clone(); n]; ps[n - 1] = tail.clone();
+            add_sig(&mut plan, &mut seen, ps, "len17+", Depth::Long, &mut g, cap);
+            let mut ps = vec![s.clone(); n + 1]; ps[3] = P::Pad4; ps[n] = tail;
+            add_sig(&mut plan, &mut seen, ps, "len17+", Depth::Long, &mut g, cap);
+        }
+    }
+    if !g.is_empty() { plan.groups.push(g); }
+    plan
+}
+
+fn plan_msg(_thorough: bool) -> Plan {
+    let mut plan = Plan::new(Host::Msg08);
+    let mut seen = BTreeSet::new();
+    let mut g = vec![];
+    let strs = [pstr('z', StrSize::Block(4), None, false), pstr('m', StrSize::Block(4), Some(MASK77), false), pstr('z', StrSize::Fixed(8, false), None, false),
+        pstr('m', StrSize::Fixed(8, true), Some(MASK77), false), pstr('p', StrSize::Pascal(4), None, false), pstr('m', StrSize::Block(4), Some(MASK77), true),
+        pstr('m', StrSize::Block(1), Some([0xff, 0, 0]), false)];
+    let pre = [vec![], vec![pint('S')], vec![pint('s'), P::Pad1], vec![pint('b'), pint('c')], vec![P::Float { imm: false }], vec![P::Pad4]];
+    for st in &strs { for p in &pre {
+        let mut ps = p.clone(); ps.push(st.clone());
+        add_sig(&mut plan, &mut seen, ps, "msg", Depth::Full, &mut g, 100_000);
+    } }
+    for ps in [vec![pint('S'), pint('s'), pint('u'), pint('b'), pint('c')], vec![pint('U'), P::Float { imm: false }, pint('C')]] {
+        add_sig(&mut plan, &mut seen, ps, "msg", Depth::Full, &mut g, 100_000);
+    }
+    if !g.is_empty() { plan.groups.push(g); }
+    plan
+}
+
+fn plan_tl(_thorough: bool) -> Plan {
+    let mut plan = Plan::new(Host::Tl06);
+    let mut seen = BTreeSet::new();
+    let mut g = vec![];
+    let a0 = |l: char, en: Option<&str>| P::Int { letter: l, imm: false, hex: false, en: en.map(String::from), arg0: true };
+    for first in [a0('s', None), a0('u', None), a0('b', None), a0('c', None), a0('s', Some("bool"))] {
+        for rest in [vec![], vec![pint('S')], vec![pint('S'), pint('S')], vec![P::Pad4, pint('S')], vec![pint('s'), P::Pad1, P::Pad1], vec![P::Float { imm: false }],
+            vec![pstr('z', StrSize::Block(4), None, false)]] {
+            let mut ps = vec![first.clone()]; ps.extend(rest);
+            add_sig(&mut plan, &mut seen, ps, "timeline-arg0", Depth::Full, &mut g, 2000);
+        }
+    }
+    add_sig(&mut plan, &mut seen, vec![pint('S'), pint('S')], "timeline-arg0", Depth::Full, &mut g, 2000);
+    add_sig(&mut plan, &mut seen, vec![pint('S'), a0('s', None)], "timeline-arg0", Depth::Full, &mut g, 2000);
+    add_sig(&mut plan, &mut seen, vec![a0('S', None)], "timeline-arg0", Depth::Full, &mut g, 2000);
+    add_sig(&mut plan, &mut seen, vec![a0('s', None), a0('s', None)], "timeline-arg0", Depth::Full, &mut g, 2000);
+    if !g.is_empty() { plan.groups.push(g); }
+    plan
+}
+
+enum Work { Group(usize, usize), Rejects(usize, usize, usize) }
+
+pub fn run(tier: &str) -> Report {
+    let mut rep = Report::new("C12", tier, "model_checking");
+    let thorough = rep.is_thorough();
+    let corrupt = std::env::var("VERIF_C12_SELFTEST_CORRUPT").map(|v| v == "1").unwrap_or(false);
+    let only = std::env::var("VERIF_C12_FAMILY").ok();
+    let t0 = std::time::Instant::now();
+    let plans = vec![plan_anm(thorough), plan_msg(thorough), plan_tl(thorough)];
+    let mut work = vec![];
+    for (pi, p) in plans.iter().enumerate() {
+        for gi in 0..p.groups.len() {
+            if let Some(o) = &only { if !format!("{}/{}", p.host.name(), p.meta[p.groups[gi][0]].0).contains(o.as_str()) { continue; } }
+            work.push(Work::Group(pi, gi));
+        }
+        if only.is_some() { continue; }
+        let mut k = 0;
+        while k < p.rejects.len() { let e = (k + 32).min(p.rejects.len()); work.push(Work::Rejects(pi, k, e)); k = e; }
+    }
+    let t_plan = t0.elapsed().as_secs_f64();
+    let deadline = rep.deadline() - std::time::Duration::from_secs(if thorough { 150 } else { 50 });
+    let results = par_map(&work, Some(deadline), |wi, w| {
+        let mut acc = Acc::default();
+        match *w {
+            Work::Group(pi, gi) => {
+                let p = &plans[pi];
+                let cases = p.cases_of_group(gi);
+                acc.planned += cases.len() as u64;
+                let mut seen_sig = BTreeSet::new();
+                for c in &cases {
+                    let mut f = None;
+                    if p.sigs[c.sig].iter().any(|x| x.nontrivial()) || c.calls.iter().any(|a| model_call(p.host, &p.sigs[c.sig], a, 0, &mut f).edge) { acc.nontrivial += 1; }
+                    let e = acc.families.entry(format!("{}/{}", p.host.name(), c.family)).or_insert((0, 0));
+                    e.1 += 1; if seen_sig.insert(c.sig) { e.0 += 1; }
+                }
+                check_group(p.host, &p.sigs, &cases, (0..cases.len()).collect(), &mut acc, corrupt && wi == 0);
+            },
+            Work::Rejects(pi, a, b) => { let p = &plans[pi]; acc.planned += (b - a) as u64; acc.nontrivial += (b - a) as u64; check_rejects(p.host, &p.rejects[a..b], &mut acc); },
+        }
+        acc
+    });
+    let mut total = Acc::default();
+    let mut not_run = 0u64;
+    for r in results { match r { Some(a) => total.merge(a), None => not_run += 1 } }
+    let n_sigs: u64 = plans.iter().map(|p| p.sigs.len() as u64).sum();
+    let n_rejects: u64 = plans.iter().map(|p| p.rejects.len() as u64).sum();
+    rep.evaluations = total.evaluations;
+    rep.transitions = total.evaluations;
+    rep.states = total.planned;
+    rep.traces_validated = total.traces;
+    rep.nontrivial = total.nontrivial;
+    rep.rule = "the signature contains padding, a sub-dword, a string or o/t, or a value lies at a width edge (or the signature is one the loader must reject)".into();
+    for (k, v) in &total.outcomes { rep.outcome_n(k, *v); }
+    for f in total.failures.drain(..) { rep.failures.push(f); }
+    if not_run > 0 { rep.cap_hit = Some(format!("wall cap: {not_run} of {} work items not run", work.len())); }
+    if total.cases_done != total.planned {
+        rep.machinery_errors.push(format!("case accounting: {} outcomes for {} cases", total.cases_done, total.planned));
+    }
+    rep.exhaustive = not_run == 0 && only.is_none();
+    rep.bound_completed = format!(
+        "ANM th12 user mapfile: all signatures of length <= {} over the 17-letter alphabet {{S s U u C c b f _ - n N E o t z(bs=4) m(bs=4;mask=0x77,7,16)}} (invalid ones must be rejected); \
+         {} attribute variants alone / before / after 7 context letters{}; length-16 all-S signatures with 1 position over the 16 other letters and 2 positions over {}; 17/18/20(+padding) parameters; \
+         MSG th08 string signatures; TH06 timeline arg0 signatures.  Argument lists: default list, every single boundary-value deviation, registers at 1 and 2 positions{}",
+        if thorough { 4 } else { 3 }, attr_variants().len(), if thorough { " (+ triples and pairs of variants)" } else { "" },
+        if thorough { "the 16 other letters" } else { "{_ - s f} (position pairs adjacent or touching an end)" }, if thorough { ", value deviation x register elsewhere (length <= 3 and attribute family)" } else { "" });
+    rep.extra.insert("signatures_valid".into(), json!(n_sigs));
+    rep.extra.insert("signatures_rejected_expected".into(), json!(n_rejects));
+    rep.extra.insert("families".into(), json!(total.families.iter().map(|(k, v)| json!({"family": k, "signatures": v.0, "cases": v.1})).collect::<Vec<_>>()));
+    rep.extra.insert("notes".into(), json!(total.notes));
+    rep.extra.insert("plan_seconds".into(), json!(t_plan));
+    for p in &plans { if !p.groups.is_empty() { let cs = p.cases_of_group(p.groups.len() / 2); for ci in [0usize, cs.len() / 2, cs.len().saturating_sub(1)] { if let Some(c) = cs.get(ci) { rep.sample(detail(p.host, &p.sigs, c, json!(null))); } } } }
+    rep.assumptions = vec![
+        "encoding_rs Shift-JIS tables are trusted (same library as truth)".into(),
+        "a value 'fits' a w-byte parameter when it is representable in w bytes as signed OR unsigned (signedness is documented as display only); such values are compared modulo 2^(8w)".into(),
+        "NaN payloads are out of scope here (C08/C11)".into(),
+    ];
+    rep.explanation = "Every (signature, argument list) is compiled by the real compiler through a user mapfile; args blob, parameter mask and arg0 of each written instruction are compared with the harness model M7, the decompiled arguments are compared by value, and the decompiled text must recompile to the same bytes.  Compile errors are attributed to cases by source line; cases with an error are judged (expected diagnostic or violation) and the rest of the batch is recompiled.".into();
+    rep
+}
+
+pub fn replay(d: &Value) -> i32 {
+    let host = match d["host"].as_str().and_then(Host::from_name) { Some(h) => h, None => { eprintln!("replay: bad host"); return 2 } };
+    let sig = d["sig"].as_str().unwrap_or("");
+    let mut acc = Acc::default();
+    if d["family"] == "sig-reject" {
+        let reason: &'static str = Box::leak(d["reason"].as_str().unwrap_or("?").to_string().into_boxed_str());
+        check_rejects(host, &[(sig.to_string(), reason)], &mut acc);
+    } else {
+        let ps = match parse_sig(sig) { Some(p) => p, None => { eprintln!("replay: cannot parse signature {sig:?}"); return 2 } };
+        let calls: Option<Vec<Vec<A>>> = d["calls"].as_array().map(|cs| cs.iter().map(|c| c.as_array().map(|a| a.iter().filter_map(A::from_json).collect()).unwrap_or_default()).collect());
+        let case = Case { sig: 0, calls: calls.unwrap_or_default(), family: "replay" };
+        let b = build(host, &[ps.clone()], &[case.clone()], &[0], false);
+        println!("--- mapfile\n{}--- source\n{}", b.mapfile, b.source);
+        for bc in &b.calls { println!("--- model: blob [{}] mask {:#x} arg0 {:?} needs {:?} error {:?} printed {:?}", hex(&bc.model.blob), bc.model.mask, bc.model.extra, bc.model.needs, bc.model.error, bc.model.printed); }
+        let c = drive::compile(host.tool(), b.source.as_bytes(), &CompileOpts { mapfiles: vec![&b.mapfile], ..Default::default() });
+        println!("--- compile: bytes={} panic={:?}\n{}", c.bytes.is_some(), c.panic.as_ref().map(|p| &p.text), short(&c.diag));
+        if let Some(bytes) = &c.bytes {
+            if let Ok(ins) = walk(host, bytes) { for i in &ins { println!("--- written: opcode {} blob [{}] mask {:#x} arg0 {}", i.opcode, hex(&i.blob), i.mask, i.extra); } }
+            let dd = drive::decompile(host.tool(), bytes, &DecompOpts { width: 1_000_000, mapfiles: vec![&b.mapfile], ..Default::default() });
+            if let Some(t) = &dd.text { for l in t.lines().filter(|l| l.trim_start().starts_with("ins_")) { println!("--- decompiled: {}", l.trim()); } }
+            if !dd.diag.trim().is_empty() { println!("--- decompile diag:\n{}", short(&dd.diag)); }
+        }
+        check_group(host, &[ps], &[case], vec![0], &mut acc, false);
+    }
+    println!("--- outcomes: {:?}", acc.outcomes);
+    for f in &acc.failures { println!("FAIL {}  {}", f.signature, f.detail["note"]); }
+    if acc.failures.is_empty() { 0 } else { 1 }
+}
